@@ -102,7 +102,7 @@ def check(stream, adj, o):
     max_h = adj.get("max_request_header_size", DEFAULT_HDR)
     max_b = adj.get("max_request_body_size", DEFAULT_BODY)
     items = REQ.parse_stream(stream)
-    o.reparse_tolerant([it.method for it in items])
+    o.reparse_tolerant([it.method or it.lex_method for it in items])
     finals = [r for r in o.responses if not r.interim]
     # (c) every server-generated error response is well formed, announces closing, and is followed by EOF
     for i, r in enumerate(finals):
@@ -175,6 +175,8 @@ def check(stream, adj, o):
         if r is None:
             break
         if not is_app(r):
+            if it.verdict in (REQ.MUST_REFUSE, REQ.GRAY) or it.notes:
+                break   # the message is refused for a reason of its own: which of the error statuses it gets is not fixed by the statement
             if r.status == 431 and not may431:
                 fail("431-below-limit", "message %d: head of %d bytes (limit %d) refused with 431" % (k, avail_total, max_h))
             if r.status == 413 and not may413:
